@@ -204,6 +204,12 @@ namespace GeographicLib {
     static double From(int kind, double v) {
       switch (kind) { case 0: return v; case 1: case 2: return v / 3; default: return 0; }
     }
+    // TW1: the far-side test is written with fabs once and bare once
+    static double Far(double dlon, double s) {
+      double a = std::fabs(dlon) <= 90 ? s : -s;
+      double b = dlon <= 90 ? std::fabs(s) : -std::fabs(s);
+      return a + b;
+    }
     // CP1: the northing clause is a copy of the easting clause with one name left behind
     static double Pad(double easting, double northing, double scale) {
       double w = 0;
